@@ -470,6 +470,15 @@ def c6_options(fb, rep, cg):
 
 # ----------------------------------------------------------------------------- .7
 
+# fields startThread reads that are long-lived by design (one reason each); everything else it reads is per-go state
+GO_CONFIG = {
+    'engineThread': 'the engine thread object (created once)', 'os': 'output stream of the session', 'listener': 'search listener of the session',
+    'et': 'evaluation hash tables (persistent by design, see C14.3)', 'ht': 'history table (persistent; reset by Clear Hash / ucinewgame)',
+    'kt': 'killer table (cleared by every search, C14.2)', 'treeLog': 'tree logger of the session',
+    'randomSeed': 'strength-limiting seed, set by ucinewgame',
+}
+
+
 def c7_go_frame(fb, rep):
     """Per-`go` frame completeness: the function that derives the search limits from the go
     parameters writes each limit field on *every* path (else a value from an earlier go leaks
@@ -503,6 +512,27 @@ def c7_go_frame(fb, rep):
                    fld in may and eff.must_write(ct, fld), f.where, '', f.sname)
         R.dominated_by(rep, f, clause, '%s: computeTimeLimit() precedes startThread()' % name,
                        R.is_named_call('EngineControl::startThread'), R.is_named_call('EngineControl::computeTimeLimit'))
+    # every per-go input of startThread is written on each go path (the object outlives the go: a field that one path
+    # forgets keeps the value of an earlier go - cf. the searchmoves of a ponder search)
+    st = fb.find1('EngineControl::startThread')
+    if rep.need(clause, st, 'EngineControl::startThread'):
+        st_reads = set()
+        trees = [e for _, _, e in st.events()] + [blk['term']['cond'] for bid, blk in st.blocks.items() if bid not in st.dead and (blk.get('term') or {}).get('cond') is not None]
+        for t in trees:
+            for n in walk(t):
+                if n.get('k') == 'mem':
+                    p_ = ap(n)
+                    if p_ and p_.startswith('this.'):
+                        st_reads.add(p_.split('.')[1])
+        unknown = st_reads - set(GO_CONFIG)
+        for name in ('EngineControl::startSearch', 'EngineControl::startPonder'):
+            f = fb.find1(name)
+            if f is None:
+                continue
+            for fld in sorted(unknown):
+                rep.ob(clause, 'K13 frame completeness', '%s: the per-go input %s of startThread is written on this go path' % (name.split('::')[-1], fld),
+                       eff.must_write(f, fld), f.where, 'inputs of startThread that are long-lived configuration (not per-go): %s' % sorted(GO_CONFIG), f.sname)
+        rep.floor(clause, 'per-go inputs of startThread', len(unknown), 6)
 
 
 # ----------------------------------------------------------------------------- .8
